@@ -1321,6 +1321,16 @@ impl defmt::Format for TLVSequenceIter<'_> {
     }
 }
 
+impl TLVElement<'_> {
+    /// Return the total length of the encoding of this element - for containers including the
+    /// contained elements and the end-of-container marker.
+    ///
+    /// Fails if the element is empty, malformed, truncated or (for containers) not terminated.
+    pub fn total_len(&self) -> Result<usize, Error> {
+        self.0.container_len()
+    }
+}
+
 /// Verification hooks (feature `verif` only): read-only access to crate-private items.
 #[cfg(feature = "verif")]
 impl<'a> TLVElement<'a> {
